@@ -137,6 +137,7 @@ fn drive<T: Transport>(t: T, p: &BlkParams, rng: &mut SmallRng) -> String {
         Err(e) => return err(e),
     };
     let cap = blk.capacity();
+    let mut pool: Vec<(Box<BlkReq>, Box<BlkResp>)> = vec![];
     with_world(|w| w.dev(json!({"e":"Info","capacity":hex(cap),"readonly":blk.readonly()})));
     let mut nb: BTreeMap<u16, Nb> = BTreeMap::new();
     let sectors: [usize; 8] = [0, 1, 7, 0xffff, 0x1_0000, 0xffff_ffff, 0x1_0000_0000, 0x0123_4567_89ab];
@@ -176,7 +177,13 @@ fn drive<T: Transport>(t: T, p: &BlkParams, rng: &mut SmallRng) -> String {
         } else if roll < 75 {
             // non-blocking submission
             let write = rng.gen_bool(0.5);
-            let mut x = Nb { req: Box::new(BlkReq::default()), resp: Box::new(BlkResp::default()), buf: vec![0u8; 512 * n].into_boxed_slice(), write };
+            // request / response headers come from a pool of consumed ones (as a caller with
+            // request slots would do): whatever the previous use left in them must not matter
+            let (req, resp) = match pool.pop() {
+                Some(h) if rng.gen_bool(0.7) => h,
+                _ => (Box::new(BlkReq::default()), Box::new(BlkResp::default())),
+            };
+            let mut x = Nb { req, resp, buf: vec![0u8; 512 * n].into_boxed_slice(), write };
             if write {
                 rng.fill(&mut x.buf[..]);
             }
@@ -229,6 +236,8 @@ fn drive<T: Transport>(t: T, p: &BlkParams, rng: &mut SmallRng) -> String {
                 if !consumed {
                     nb.insert(tok, x);
                 }
+            } else {
+                pool.push((x.req, x.resp));
             }
         }
         if nb.is_empty() {
